@@ -175,6 +175,39 @@ fn definite_comparison(
         return false;
     }
     let effective_op = if flipped { flip_op(op) } else { *op };
+    // Integer statistics against an integer literal are compared exactly, as
+    // i64. Going through f64 rounds beyond 2^53: with max = 2^53 + 1 and
+    // `x <= 2^53` both sides become 2^53 and the row filter was dropped for a
+    // row group that holds a non-matching row.
+    let int_bounds: Option<(i64, i64)> = match stats {
+        ParquetStatistics::Int64(s) => match (s.min_opt(), s.max_opt()) {
+            (Some(a), Some(b)) => Some((*a, *b)),
+            _ => return false,
+        },
+        ParquetStatistics::Int32(s) => match (s.min_opt(), s.max_opt()) {
+            (Some(a), Some(b)) => Some((*a as i64, *b as i64)),
+            _ => return false,
+        },
+        _ => None,
+    };
+    let int_val: Option<i64> = match literal {
+        ScalarValue::Int64(v) => Some(*v),
+        ScalarValue::Int32(v) => Some(*v as i64),
+        ScalarValue::Date32(v) => Some(*v as i64),
+        ScalarValue::Timestamp(v) => Some(*v),
+        _ => None,
+    };
+    if let (Some((min, max)), Some(val)) = (int_bounds, int_val) {
+        return match effective_op {
+            BinaryOp::Lt => max < val,
+            BinaryOp::LtEq => max <= val,
+            BinaryOp::Gt => min > val,
+            BinaryOp::GtEq => min >= val,
+            BinaryOp::Eq => min == val && max == val,
+            BinaryOp::NotEq => val < min || val > max,
+            _ => false,
+        };
+    }
     let (min, max): (f64, f64) = match stats {
         ParquetStatistics::Int64(s) => match (s.min_opt(), s.max_opt()) {
             (Some(a), Some(b)) => (*a as f64, *b as f64),
@@ -304,9 +337,11 @@ fn check_i32_stats(stats: &ParquetStatistics, op: BinaryOp, val: i32) -> bool {
             if s.min_opt().is_none() || s.max_opt().is_none() {
                 return true;
             }
-            let min = *s.min_opt().unwrap() as i32;
-            let max = *s.max_opt().unwrap() as i32;
-            eval_range_i32(op, val, min, max)
+            // Widen the literal instead of narrowing the bounds: `as i32`
+            // wraps (2^31 becomes -2^31) and pruned row groups that match.
+            let min = *s.min_opt().unwrap();
+            let max = *s.max_opt().unwrap();
+            eval_range(op, val as i64, min, max)
         }
         _ => true,
     }
